@@ -547,7 +547,9 @@ def rule_postprocess_skips_runtime_copies(repo: Repo, rep, rule: str = "R12.6") 
     """R12.3 shows that CoreEmitter writes the runtime modules verbatim; the only other writer of generated files in `generate()` is the
     post-processor (formatters run in place).  Every list handed to `PostprocessManager(...).run(...)` must have passed a filter that
     removes the paths built from RUNTIME_FILES."""
-    gen = repo.func("generator.client_generator:ClientGenerator.generate")
+    from rules.c10 import generation_function as _genfn
+
+    gen = _genfn(repo)
     cls = gen.module.classes.get("ClientGenerator")
     from sa.match import Locals as _L
 
